@@ -292,6 +292,68 @@ impl Prop for C19 {
                 move |ch| Some(Case::WordFree { text: ch.pick(&texts).clone() }),
             ));
         }
+        // the word-free generators of the other properties, run under every language
+        f.push(Family::new(
+            "word-free-arithmetic",
+            Mode::Full,
+            "every expression tree with 1..=3 leaves x 4 operators x literals [7, 2, 0.5, -3] in the Minimal and Tight renderings (the C02 generator): identical observation in every configured language",
+            move |ch| {
+                use crate::model::arith::{self, Style};
+                let n = 1 + ch.choose(3);
+                let e = super::c02::tree(ch, n, &["7", "2", "0.5", "-3"]);
+                let style = *ch.pick(&[Style::Minimal, Style::Tight]);
+                let toks = arith::tokens(&e, style, &Conv::default_lib());
+                if arith::has_date_triple(&toks) {
+                    return None;
+                }
+                Some(Case::WordFree { text: arith::join(&toks, style) })
+            },
+        ));
+        f.push(Family::new(
+            "word-free-percent-money",
+            Mode::Full,
+            "'X + p%', 'X - p%' (both percent spellings, X plain / by code / by symbol), money sums, differences, ratios, scalings and connective-free conversions over 6 currencies: identical observation in every configured language",
+            move |ch| {
+                let which = ch.choose(2);
+                if which == 0 {
+                    let x = *ch.pick(&["40", "0", "-2,5", "1234,5"]);
+                    let p = *ch.pick(&["6", "0", "2,5", "150"]);
+                    let xt = match ch.choose(3) {
+                        0 => x.to_string(),
+                        1 => format!("{} usd", x),
+                        _ => format!("${}", x),
+                    };
+                    let pt = if ch.flag() { format!("%{}", p) } else { format!("{}%", p) };
+                    let op = *ch.pick(&["+", "-"]);
+                    Some(Case::WordFree { text: format!("{} {} {}", xt, op, pt) })
+                } else {
+                    let curs = ["usd", "try", "eur", "jpy", "gbp", "dkk"];
+                    let a = *ch.pick(&curs);
+                    let b = *ch.pick(&curs);
+                    let text = match ch.choose(5) {
+                        0 => format!("12,5 {} + 3 {}", a, b),
+                        1 => format!("12,5 {} - 3 {}", a, b),
+                        2 => format!("12,5 {} / 3 {}", a, b),
+                        3 => format!("12,5 {} * 2", a),
+                        _ => format!("10 {} {}", a, b),
+                    };
+                    Some(Case::WordFree { text })
+                }
+            },
+        ));
+        f.push(Family::new(
+            "word-free-programs",
+            Mode::Full,
+            "every program of 1..=2 lines over the 26 number line kinds of C03 (bindings, re-bindings, uses, failing lines): identical observation in every configured language",
+            move |ch| {
+                let n = 1 + ch.choose(2);
+                let mut lines = Vec::new();
+                for _ in 0..n {
+                    lines.push(ch.pick(&super::c03::NUM_LINES).to_string());
+                }
+                Some(Case::WordFree { text: lines.join("\n") })
+            },
+        ));
         f
     }
 
